@@ -924,9 +924,53 @@ func c01musts(c *core.Ctx) {
 	}
 }
 
+// the augments of a module in any textual order: an augment may add the target of another one that is written
+// before it (RFC 7950 has no rule about the order of statements), the compiled tree is that of the ordered text
+func c01augmentOrder(c *core.Ctx) {
+	hdr := "module ao { namespace \"urn:ao\"; prefix ao; revision 2020-01-01;\n  grouping g { container gc { leaf gl { type string; } } }\n  container c { }\n"
+	augs := []string{
+		`  augment "/c" { container d { leaf d1 { type string; } } }`,
+		`  augment "/c/d" { container e { uses g; } leaf x { type string; } }`,
+		`  augment "/c/d/e" { leaf y { type string; } }`,
+		`  augment "/c/d/e/gc" { leaf z { type string; } }`,
+	}
+	load := func(order []int) (string, string) {
+		y := hdr
+		for _, i := range order {
+			y += augs[i] + "\n"
+		}
+		y += "}\n"
+		var dump string
+		e := safeDo(func() error {
+			m, err := parser.LoadModuleFromString(nil, y)
+			if err != nil {
+				return err
+			}
+			dump = c01dump(m.DataDefinitions())
+			return nil
+		})
+		if e != nil {
+			return y, "error " + e.Error()
+		}
+		return y, dump
+	}
+	_, want := load([]int{0, 1, 2, 3})
+	for _, order := range [][]int{{0, 1, 2, 3}, {1, 0, 2, 3}, {3, 2, 1, 0}, {2, 0, 3, 1}, {0, 3, 1, 2}, {1, 2, 3, 0}} {
+		y, got := load(order)
+		c.Evaluations++
+		c.Count("augment_order", fmt.Sprint(order))
+		c.Distinct(fmt.Sprint("augorder ", order))
+		if strings.HasPrefix(want, "error") || got != want {
+			c.Violation(core.Replay{Kind: "property-failure", Class: "augment-order", Summary: fmt.Sprintf("augments written in the order %v: %s; in the order of their dependencies: %s", order, short(got), short(want)),
+				Input: y, Impl: got, Spec: want})
+		}
+	}
+}
+
 func C01(c *core.Ctx) {
 	c01musts(c)
-	c.Rule = "generated module sets: a main module whose body is built from leaves, containers, keyed lists and uses of groupings placed at module level, in the using container (sibling scope), in a submodule and in an imported module (prefixed uses), groupings nested in groupings, a grouping used several times with different refines (description, default, mandatory, config, min-elements incl. 0, max-elements as a number and as 'unbounded', each refined into the other) and uses-augments (into containers and lists of the copy), module-level augments into plain and into grouping-expanded containers in textual order, config false stated on some nodes; the compiled tree (kind, name, order, effective config, description, default, mandatory, min-/max-elements of every node) compared with the Lean expansion of the factored form, with the harness's own expansion, and with the compiled tree of the same schema written inline without any grouping, augment or second file; also: a leaf, container or list named like the grouping used next to it, a uses whose augment uses the same grouping again, a module grouping named like the imported grouping it wraps, presence stated and refined, leaves guarded by an enabled feature of the module (the load has imports). non-trivial = module set with ≥2 uses, ≥1 refine and ≥1 augment; distinct by module set"
+	c01augmentOrder(c)
+	c.Rule = "generated module sets: a main module whose body is built from leaves, containers, keyed lists and uses of groupings placed at module level, in the using container (sibling scope), in a submodule and in an imported module (prefixed uses), groupings nested in groupings, a grouping used several times with different refines (description, default, mandatory, config, min-elements incl. 0, max-elements as a number and as 'unbounded', each refined into the other) and uses-augments (into containers and lists of the copy), module-level augments into plain and into grouping-expanded containers in textual order, config false stated on some nodes; the compiled tree (kind, name, order, effective config, description, default, mandatory, min-/max-elements of every node) compared with the Lean expansion of the factored form, with the harness's own expansion, and with the compiled tree of the same schema written inline without any grouping, augment or second file; also: a leaf, container or list named like the grouping used next to it, a uses whose augment uses the same grouping again, a module grouping named like the imported grouping it wraps, presence stated and refined, leaves guarded by an enabled feature of the module (the load has imports); four augments of one module, each adding the target of the next, in six textual orders. non-trivial = module set with ≥2 uses, ≥1 refine and ≥1 augment; distinct by module set"
 	c.Assumptions = append(c.Assumptions,
 		"every leaf is of type string (types are C02); if-feature, choice/case, deviations and rpc/notification content are not generated here (C11 covers feature guards, C09/C06 choices)",
 		"explicit 'config true' is never written (only 'config false'), so every generated module set is valid wherever a grouping is used")
